@@ -201,17 +201,36 @@ fn check_faulty_write(conf: &AisleConf, golden: &[u8], faults: &[WriteFault], ou
                 other => out.push(v("hard-fault-mishandled", format!("write after an interrupted flush differs from the fault-free output: {:?}", other.map(|x| x.0.len())))),
             }
         }
+        // a long burst of EINTR (eight or more in this write): a writer with a bounded retry loop
+        // may give up and hand Interrupted back - then, as after any error, a prefix must be there
+        None if res.as_ref().err().map(|e| e.kind()) == Some(std::io::ErrorKind::Interrupted) && w.fired_tags.iter().filter(|t| **t == "eintr").count() >= 8 => {
+            if !golden.starts_with(&w.accepted) {
+                out.push(v("benign-fault-visible", format!("after a burst of EINTR write returned Interrupted and the sink holds {:?}, which is not a prefix of the fault-free output", String::from_utf8_lossy(&w.accepted))));
+            }
+        }
         None => {
             if res.is_err() || w.accepted != golden {
                 out.push(v("benign-fault-visible", format!("faults {:?}: result {:?}, sink holds {} bytes {:?}, fault-free output is {} bytes {:?}", w.fired_tags, res.as_ref().map_err(|e| e.kind()), w.accepted.len(), String::from_utf8_lossy(&w.accepted), golden.len(), String::from_utf8_lossy(golden))));
             }
         }
         Some(c) => {
-            let kind = res.as_ref().err().map(|e| e.kind());
-            // (further write calls after the error are not held against the writer: a std BufWriter
-            // dropped after a failed flush tries once more - what reaches the sink is still a prefix)
-            if res.is_ok() || kind != w.hard_error_kind || !golden.starts_with(&w.accepted) {
-                out.push(v("hard-fault-mishandled", format!("hard fault {:?} at write call {c}: result {:?}, {} write calls after the error, sink {:?} prefix-of-golden={}", w.hard_error_kind, res.as_ref().map_err(|e| e.kind()), w.calls_after_error, String::from_utf8_lossy(&w.accepted), golden.starts_with(&w.accepted))));
+            // What the statement implies under a hard sink error, and no more: a write that reports
+            // success must have delivered everything (a writer may legitimately retry WouldBlock or
+            // any other error and succeed - the sink then holds the complete output); a write that
+            // reports failure leaves a prefix of the fault-free output. Which error kind comes back,
+            // and whether further write calls follow the error (a std BufWriter dropped after a
+            // failed flush tries once more), is the writer's business.
+            match &res {
+                Ok(()) => {
+                    if w.accepted != golden {
+                        out.push(v("hard-fault-mishandled", format!("hard fault {:?} at write call {c}, write returned Ok, but the sink holds {} bytes {:?} instead of the {} bytes of the fault-free output {:?} (faults {:?})", w.hard_error_kind, w.accepted.len(), String::from_utf8_lossy(&w.accepted), golden.len(), String::from_utf8_lossy(golden), w.fired_tags)));
+                    }
+                }
+                Err(e) => {
+                    if !golden.starts_with(&w.accepted) {
+                        out.push(v("hard-fault-mishandled", format!("hard fault {:?} at write call {c}: write returned {:?} and the sink holds {:?}, which is not a prefix of the fault-free output ({} write calls after the error)", w.hard_error_kind, e.kind(), String::from_utf8_lossy(&w.accepted), w.calls_after_error)));
+                    }
+                }
             }
             // once faults stop, a write of the same value gives the fault-free output
             match write_golden(conf) {
@@ -701,10 +720,30 @@ pub fn enumerate_write_faults(text: &str) -> Vec<AisleScenario> {
             for n in 1..len {
                 v.push(mk(with_mode(vec![WriteFault::Short { call: c, n: n as u32 }])));
             }
-            // short write followed by a hard error on the retry
+            // a short write followed by a second fault on the retry of the rest: every kind, after
+            // 1 byte, half of the call and all but one byte (a writer that retries transient errors
+            // must resume where the sink stopped, not where the call began)
             if len > 1 {
-                v.push(mk(with_mode(vec![WriteFault::Short { call: c, n: 1 }, WriteFault::IoErr { call: c + 1, errkind: "BrokenPipe".into() }])));
+                let mut ns = vec![1usize, len / 2, len - 1];
+                ns.dedup();
+                for n in ns {
+                    let n = n.max(1) as u32;
+                    v.push(mk(with_mode(vec![WriteFault::Short { call: c, n }, WriteFault::IoErr { call: c + 1, errkind: "BrokenPipe".into() }])));
+                    v.push(mk(with_mode(vec![WriteFault::Short { call: c, n }, WriteFault::WouldBlock { call: c + 1 }])));
+                    v.push(mk(with_mode(vec![WriteFault::Short { call: c, n }, WriteFault::Zero { call: c + 1 }])));
+                    v.push(mk(with_mode(vec![WriteFault::Short { call: c, n }, WriteFault::Eintr { call: c + 1 }])));
+                    v.push(mk(with_mode(vec![WriteFault::Short { call: c, n }, WriteFault::Eintr { call: c + 1 }, WriteFault::WouldBlock { call: c + 2 }])));
+                }
                 v.push(mk(with_mode(vec![WriteFault::Eintr { call: c }, WriteFault::Short { call: c + 1, n: 1 }, WriteFault::Eintr { call: c + 2 }])));
+            }
+            // faults in a row: two, and more than any sane retry bound
+            v.push(mk(with_mode(vec![WriteFault::WouldBlock { call: c }, WriteFault::WouldBlock { call: c + 1 }])));
+            v.push(mk(with_mode(vec![WriteFault::Eintr { call: c }, WriteFault::Eintr { call: c + 1 }, WriteFault::Eintr { call: c + 2 }])));
+            v.push(mk(with_mode(vec![WriteFault::Eintr { call: c }, WriteFault::WouldBlock { call: c + 1 }])));
+            v.push(mk(with_mode(vec![WriteFault::WouldBlock { call: c }, WriteFault::IoErr { call: c + 1, errkind: "StorageFull".into() }])));
+            if c % 7 == 0 {
+                v.push(mk(with_mode((0..40).map(|k| WriteFault::WouldBlock { call: c + k }).collect())));
+                v.push(mk(with_mode((0..40).map(|k| WriteFault::Eintr { call: c + k }).collect())));
             }
         }
         for fl in 0..rec.flushes {
@@ -769,6 +808,7 @@ fn absorb(out: &mut WorkerOut, sc: &AisleScenario, st: &AisleStats, viol: &[Viol
             scenario: None,
             sched: None,
             aisle: Some(sc.clone()),
+            depth: None,
             violations: viol.to_vec(),
             minimised: false,
             notes: vec![],
@@ -823,7 +863,8 @@ pub fn worker(a: &Args) -> i32 {
             let sweep: Vec<usize> = if runs >= 1000 {
                 (1..=1100).chain(4080..=4104).chain(8176..=8200).collect()
             } else {
-                (1..=140).collect()
+                // (the sizes of common stack and heap buffers, with their neighbours, also in the quick tier)
+                (1..=140).chain([255, 256, 257, 511, 512, 513, 1023, 1024, 1025, 2048, 4095, 4096, 4097, 8191, 8192, 8193]).collect()
             };
             for k in sweep {
                 let first: String = "x".repeat(k);
